@@ -585,11 +585,40 @@ example : (reachRt 1001 [.attach 1, .link 1 0, .adv 5, .http false, .adv 5, .adv
 example : (reachRt 1001 [.attach 1, .cmd 1 0, .cmd 1 0]).rBusy = true := by decide
 example : voteTold (reachRt 1001 [.attach 1, .adv 10]) 0 = false := by decide
 
-/-- Liveness (not proved; checked on the implementation by the monitor reason `rt-not-stopped-after-unanimity`):
-when nobody is busy and nothing happens for a full timeout the runtime stops. -/
-def C17_rt_quiet_stops_open : Prop :=
-  ∀ (T : Nat) (ops : List Op) (k : Nat), 100 ≤ T → (reachRt T ops).rBusy = false → (reachRt T ops).hBusy = false →
-    T ≤ 100 * k → ((step (reachRt T ops) (.adv k)).1.stop).isSome = true
+/-- **No deadlock at the level of the runtime**: when neither the read nor the HTTP task is busy and nothing happens
+for a full timeout (`T ≥ 100` ms, the clock advances by `100 k ≥ T` ms), the runtime stops: every task's timer fires,
+every task votes, the last one is told `Unanimous` (or the write task's "no remotes" short cut fires first). -/
+theorem C17_rt_quiet_stops (T : Nat) (ops : List Op) (k : Nat) (hT : 100 ≤ T)
+    (hr : (reachRt T ops).rBusy = false) (hh : (reachRt T ops).hBusy = false) (hk : T ≤ 100 * k) :
+    ((step (reachRt T ops) (.adv k)).1.stop).isSome = true := by
+  have h := reachRt_inv T ops
+  have hTT : (reachRt T ops).T = T := T_run (init T) ops
+  generalize reachRt T ops = s at *
+  unfold step
+  cases hs : s.stop with
+  | some st => simp [hs]
+  | none =>
+    simp only [Option.isSome_none, Bool.false_eq_true, if_false, step0]
+    have hdr := h.core.dr hr
+    have hdh := h.core.dh hh
+    have p : Prog s s.now (s.now + 100 * k) (3 * (k + 1) + 3) := by
+      refine ⟨h, hs, hh, hr, by rw [hTT]; exact hT, Nat.le_refl _, Or.inr (by omega), Or.inr (by omega), ?_, ?_⟩
+      · cases hw : s.wVoted with
+        | true => exact Or.inl rfl
+        | false =>
+          have he := h.core.ew hw
+          have := h.core.dw he
+          exact Or.inr ⟨he, by omega⟩
+      · have h1 : mH s s.now (s.now + 100 * k) ≤ k + 1 := by unfold mH; split <;> omega
+        have h2 : mR s s.now (s.now + 100 * k) ≤ k + 1 := by unfold mR; split <;> omega
+        have h3 : mW s (s.now + 100 * k) ≤ 1 := by unfold mW; split <;> omega
+        omega
+    have := prog_advLoop s.now (s.now + 100 * k) _ p
+    unfold settle
+    rw [if_pos this]
+    exact this
+
+example : ((step (reachRt 1001 [.attach 1, .link 1 0, .http false]) (.adv 11)).1.stop).isSome = true := by decide
 
 end SwimVerif.InactRt
 
